@@ -331,6 +331,18 @@ def run_specs(specs):
             for fname, fty in item.get("fields", {}).items():
                 ci.fields[fname] = fty
             reg.classes[cname] = ci
+            undeclared = None
+            if ci.fields and "__init__" not in item["methods"]:
+                # declared fields: the real constructor must at least assign them
+                _o, init_node = (None, None) if node is None else reg.find_method(cname, "__init__")
+                assigned = set()
+                if init_node is not None:
+                    for n in ast.walk(init_node):
+                        if isinstance(n, ast.Attribute) and isinstance(n.ctx, ast.Store) and src(n.value) == "self":
+                            assigned.add(n.attr)
+                missing = [f for f in ci.fields if f not in assigned]
+                if missing:
+                    undeclared = "the constructor no longer assigns the declared field(s) " + ", ".join(missing)
             for meth, msp in item["methods"].items():
                 lean = "{}.{}".format(cname, msp.get("lean", meth.strip("_")))
                 fn = FnInfo(meth, lean, list(msp["params"].items()), vararg=msp.get("vararg"))
@@ -340,7 +352,9 @@ def run_specs(specs):
                 fn.cls = cname
                 fn.prop = item.get("property")
                 owner, mnode = (None, None) if node is None else reg.find_method(cname, meth)
-                if mnode is None:
+                if undeclared is not None:
+                    fn.unsupported = undeclared
+                elif mnode is None:
                     fn.unsupported = "method {}.{} not found in the source".format(cname, meth)
                 else:
                     mnode._file = getattr(reg.class_nodes[owner], "_file", item["file"])
